@@ -205,6 +205,7 @@ func run(cfg runConfig) (*runResult, error) {
 		return nil, err
 	}
 	e := newEngine(lr, db)
+	e.tier = cfg.tier
 	e.repoDir = cfg.repo
 	if err := e.initGlobals(lr.order); err != nil {
 		return nil, err
@@ -310,8 +311,20 @@ func run(cfg runConfig) (*runResult, error) {
 			}
 		}
 		sort.Strings(bk)
+		ranBounded := map[string]bool{}
 		for _, k := range bk {
 			for _, h := range db.Contracts[k].BoundedChecks {
+				// `boundedcheck harness@Cxx` runs only for that property
+				if name, only, ok := strings.Cut(h, "@"); ok {
+					if only != cfg.prop {
+						continue
+					}
+					h = name
+				}
+				if ranBounded[h] {
+					continue // one harness may stand in for several functions
+				}
+				ranBounded[h] = true
 				res.bounded = append(res.bounded, runBounded(cfg.repo, shortKeyName(k), h))
 			}
 		}
